@@ -92,7 +92,7 @@ func (p *Processor[K, T]) Dequeue(key K) {
 		// If the item was the first one in the queue, restart the processor
 		p.process(true)
 	}
-	verifhook.Point("queue.dequeue.locked", key, ok && peek.Key() == key)
+	verifhook.Point("queue.dequeue.locked", key, ok, peek)
 	p.lock.Unlock()
 }
 
